@@ -9,11 +9,17 @@
 package main
 
 import (
+	"bytes"
 	"context"
 	"fmt"
+	kredis "github.com/acquirecloud/golibs/kvs/redis"
+	"github.com/alicebob/miniredis/v2"
+	goredis "github.com/go-redis/redis/v8"
 	"sort"
 	"sync"
+	"sync/atomic"
 	"time"
+	"verifharness/internal/rproxy"
 
 	"verifharness/internal/hx"
 	"verifharness/internal/kvx"
@@ -202,7 +208,80 @@ func readerRounds(c Case, s *hx.Sink) {
 	s.Count("race:readers-meet-an-expired-record-while-it-is-rewritten")
 }
 
+// casExpiry (Redis): the record expires while a CasByVersion call is on its way - after the call has read the record
+// (version matched) and before its transaction is executed (the server's clock steps when the MULTI arrives at the
+// relay in front of the server).  The record is gone: the call has to report it missing, like for a deleted key.
+// Control rounds without the step: the call succeeds.
+func casExpiry(c Case, s *hx.Sink) {
+	mr, err := miniredis.Run()
+	if err != nil {
+		s.DirectViolation(c.ID, "miniredis", err.Error())
+		return
+	}
+	defer mr.Close()
+	px, err := rproxy.New(mr.Addr())
+	if err != nil {
+		s.DirectViolation(c.ID, "relay", err.Error())
+		return
+	}
+	defer px.Close()
+	st := kredis.New(&goredis.Options{Addr: px.Addr()})
+	if cl, ok := st.(interface{ Close() error }); ok {
+		defer cl.Close()
+	}
+	ctx := context.Background()
+	for round := 0; round < c.Race; round++ {
+		key := fmt.Sprintf("k%d", round)
+		exp := time.Now().Add(time.Second)
+		r0, err := st.Put(ctx, kvs.Record{Key: key, Value: []byte("old"), ExpiresAt: &exp})
+		if err != nil {
+			s.DirectViolation(c.ID, "cas-expiry stream: Put failed", err.Error())
+			return
+		}
+		step := round%3 != 2
+		var armed int32
+		if step {
+			armed = 1
+		}
+		px.OnRequest(func(b []byte) {
+			if bytes.Contains(bytes.ToLower(b), []byte("multi")) && atomic.CompareAndSwapInt32(&armed, 1, 0) {
+				mr.FastForward(2 * time.Second)
+			}
+		})
+		nr := kvs.Record{Key: key, Value: []byte("new"), Version: r0.Version}
+		if round%2 == 1 {
+			far := time.Now().Add(time.Hour)
+			nr.ExpiresAt = &far
+		}
+		_, err = st.CasByVersion(ctx, nr)
+		px.OnRequest(nil)
+		cl := kvx.Class(err)
+		switch {
+		case step && atomic.LoadInt32(&armed) == 1:
+			s.Count("cas-expiry:no-transaction-seen")
+		case step && cl != "ONotExist":
+			s.DirectViolation(c.ID, "CasByVersion on a record that expired while the call was on its way (after the call had read it, before its transaction was executed) did not report it missing",
+				map[string]any{"round": round, "result": cl})
+			return
+		case !step && cl != "OOk":
+			s.DirectViolation(c.ID, "CasByVersion with the current version of a live record failed", map[string]any{"round": round, "result": cl})
+			return
+		}
+		if step {
+			if _, err := st.Get(ctx, key); kvx.Class(err) != "ONotExist" {
+				s.DirectViolation(c.ID, "a record that has expired is still there after a CasByVersion that met its expiration", map[string]any{"round": round, "get": kvx.Class(err)})
+				return
+			}
+		}
+	}
+	s.Count("race:redis-record-expires-inside-a-cas")
+}
+
 func runCase(c Case, s *hx.Sink) string {
+	if c.Race > 0 && c.Be == "redis" {
+		casExpiry(c, s)
+		return fmt.Sprintf("mkCase %s %s %s []", hx.N(c.ID), inmemB.CoqBackend(), hx.Z(tolNs))
+	}
 	if c.Race > 0 {
 		readerRounds(c, s)
 		raceRounds(c, s)
@@ -481,6 +560,12 @@ func main() {
 		c := Case{ID: id, Be: "inmem", Ops: []kvx.Op{}, Race: 40, Fill: []int{2000, 6000, 20000}[i%3], Lead: []int{100, 300}[i%2], Seed: fl.Seed}
 		s.Add(c, runCase(c, s), true)
 		s.Count("stream:R:race")
+	}
+	{
+		id++
+		c := Case{ID: id, Be: "redis", Ops: []kvx.Op{}, Race: 30, Seed: fl.Seed}
+		s.Add(c, runCase(c, s), true)
+		s.Count("stream:R:cas-expiry")
 	}
 	// B. Redis, time moved by FastForward: leases of 1h / 3h / none, the clock advances 2h (twice in the tail)
 	for rep := 0; rep < reps; rep++ {
